@@ -132,4 +132,16 @@ PROPS.update({
     },
 })
 
+PROPS.update({
+    "C03": {
+        "title": "Evaluation binding against crafted and malformed proofs",
+        "rule": "Finite attack catalogue, every entry a case class with a false claimed value (recomputed truth): (generic, all 8 trait schemes) library prover run on (q, state_q) against commitment(p); honest proof for (p, z') replayed at z; honest proof for commitment(q) presented for commitment(p); empty batch proof list. (Marlin/Sonic/PST13) each proof component replaced (random / identity witness, random / dropped blinding value), PST13 witness list shorter / longer / empty. (Hyrax) inner proof list empty / truncated, z stretched / shortened, com_eval replaced by a fresh commitment to the claimed value, z_d changed. (IPA, check and batch_check) rounds missing / extra random / uneven, c and final key replaced, and the identity-padding attack: the harness's own IPA prover run on the key padded with identity elements to 2^(log d + k), k=1,2, with the extra coefficient chosen so that the inner product equals the false value. (Ligero/Brakedown, through mirror structs, with the verifier transcript simulated to derive the opened indices) opening vector altered; proof consistent with another matrix (its own paths / honest paths of the committed tree / altered sibling); opening and well-formedness vectors stretched to the codeword length by solving E'(v')[j]=E(v)[j] for all j with Gaussian elimination over the public encode; well-formedness absent; columns repeated / shifted / truncated; paths swapped. Sanity classes confirm that harness-built honest proofs are accepted." + DIST,
+        "required_classes": ["foreign-state-proof", "replayed-other-point", "foreign-commitment-proof", "rounds-extra-identity-padding", "stretched-opening-vector", "inner-proof-list-empty", "opening-vector-altered", "harness-built-honest-proof-accepted", "harness-prover-sanity"],
+        "technique": "runtime monitoring: adversarial workload (attack catalogue incl. harness-side provers and linear-system solving), reject-oracle",
+        "level_text": "A catalogue, not a proof of soundness: held on K attacks of the listed classes. It reaches what tests cannot because the proofs are not produced by the honest prover: the harness rebuilds crate-private proof types through their serialization, runs its own IPA prover and solves for stretched Ligero vectors.",
+        "design_ref": "5 (C03)",
+        "assumptions": TRUST + ["runtime monitoring cannot quantify over all adversaries; only the listed attack classes are covered"],
+    },
+})
+
 ALL_IDS = ["C%02d" % i for i in range(1, 20)]
